@@ -37,6 +37,7 @@ class Translator:
         B = Builder(s.M, inline=inline, noinline=s.opts.get('noinline', ()))
         X = B.build('@' + fname if not fname.startswith('@') else fname)
         prune_unreachable(X)
+        if fold_constants(s.M, X): prune_unreachable(X)
         return X, B
 
     def translate(s):
